@@ -214,3 +214,17 @@ Theorem C14_json_identity_iff_no_nonetype : forall d : pv, json_okN d = true ->
   (json_roundtrip d = Some d <-> has_nonetype d = false).
 Proof. exact json_roundtrip_identity_iff. Qed.
 Print Assumptions C14_json_identity_iff_no_nonetype.
+
+(* the extended fragment contains the opcode-free fragment of C14_json_roundtrip_partial, where there is no such entry *)
+Theorem C14_json_fragment_inside_extended : forall d : pv, json_ok_plain d = true -> json_okN d = true /\ has_nonetype d = false.
+Proof. exact json_ok_plain_okN. Qed.
+Print Assumptions C14_json_fragment_inside_extended.
+
+(* dump_ok in closed form: conditions on the leaves (strings are code points with fewer than 2^32 UTF-8 bytes, ints fit
+   LONG1, half-integer floats are below 2^53, other floats are canonical bit patterns, bytes shorter than 2^32) and on
+   the total length *)
+From DD Require Import Pickle.DumpOkProofs.
+Theorem C14_bytes_dump_ok_closed_form : forall v : pv,
+  leaves_ok v = true -> (len (dump_body v) <? 2 ^ 63)%N = true -> dump_ok v = true.
+Proof. exact dump_ok_closed_form. Qed.
+Print Assumptions C14_bytes_dump_ok_closed_form.
